@@ -10,7 +10,7 @@ def plan(tier, seed):
     # moves drawn by the environments' own samplers (k-opt with k = 3: k sequential draws under the sampler's masks)
     jobs += [J("2-opt sampler n=4", "sampler_job", kind="kopt", n=4, k_max=2), J("3-opt sampler n=5", "sampler_job", kind="kopt", n=5, k_max=3), J("ruin-repair sampler n=4", "sampler_job", kind="pdp", n=4)]
     if tier == "thorough":
-        jobs += [J("3-opt sampler n=6", "sampler_job", kind="kopt", n=6, k_max=3), J("4-opt sampler n=6", "sampler_job", kind="kopt", n=6, k_max=4), J("ruin-repair sampler n=6", "sampler_job", kind="pdp", n=6)]
+        jobs += [J("3-opt sampler n=6", "sampler_job", kind="kopt", n=6, k_max=3), J("4-opt sampler n=6", "sampler_job", kind="kopt", n=6, k_max=4)]  # (ruin-repair sampler at n=6: the single-cycle query does not finish within the per-query timeout; not claimed)
         jobs += [J("2-opt move n=6", "move_job", kind="kopt", n=6, k_max=2), J("ruin-repair move n=6", "move_job", kind="pdp", n=6),
                  J("2-opt bookkeeping n=5", "bookkeeping_job", kind="kopt", n=5, steps=2), J("2-opt bookkeeping n=4 x3", "bookkeeping_job", kind="kopt", n=4, steps=3)]
     return {"jobs": jobs, "level": "model_checking",
